@@ -37,7 +37,8 @@ contract("create_script", kind="assumed", params=[("filename", "Opaque"), ("text
 contract("log_event", kind="assumed", params=[("event", "Opaque")], note="structured event logging (C20)")
 contract("StructuredLogEvent", kind="assumed", pure=True, note="heap-independent",
          params=[("source", "Opaque"), ("category", "Opaque"), ("name", "Opaque"), ("message", "Opaque"),
-                 ("batch_size", "Opaque", "None"), ("per_node_batch_size", "Opaque", "None"), ("job_id", "Opaque", "None")],
+                 ("batch_size", "Opaque", "None"), ("per_node_batch_size", "Opaque", "None"), ("job_id", "Opaque", "None"),
+                 ("bytes_consumed", "Opaque", "None"), ("num_jobs", "Opaque", "None")],
          returns="Opaque")
 
 contract("HpcSubmitter._create_run_script", kind="assumed",
@@ -379,8 +380,9 @@ contract("HpcSubmitter._is_complete", file=F,
              # C05/C12: complete iff every job is done, or (forced) no batch is active any more on a real scheduler
              "result == (forall(i, range(len(JOBS(self._cluster))), JOBS(self._cluster)[i].state == JobState.DONE) "
              "or (len(val(self._cluster._job_status).hpc_job_ids) == 0 and self._hpc_mgr._hpc_type != HpcType.FAKE))",
+             "not ghost.cluster_lock",
          ],
-         raises={"Timeout": {"ensures": []}},
+         raises={"Timeout": {"ensures": ["not ghost.cluster_lock"]}, "AnyException": {"ensures": ["not ghost.cluster_lock"], "frame": False}},
          modifies=["ghost.cluster_lock", "ghost.lock_marker_left"])
 
 _uj = contract.__globals__["CONTRACTS"]["Cluster.update_job_status"]
@@ -416,7 +418,7 @@ contract("HpcSubmitter._update_status", file=F,
              "val(self._cluster._job_status).jobs == old(val(self._cluster._job_status).jobs) and unchanged(Job.name)",
              "CFG().is_complete == old(CFG().is_complete) and CFG().is_canceled == old(CFG().is_canceled)",
          ],
-         raises={k: dict(v, when=[_lift(w).replace("CFG()", "self._cluster._config") for w in v.get("when", [])], iff=False) for k, v in _uj.raises.items()},
+         raises={k: dict(v, when=[_lift(w).replace("CFG()", "self._cluster._config") for w in v.get("when", [])], iff=False) for k, v in _uj.raises.items()},     # incl. AnyException: lock released
          modifies=[m for m in _uj.modifies if not m.startswith("self.")] + ["self._cluster._config_hash", "self._cluster._job_status_hash"])
 
 RUN_DEFS = {
@@ -443,6 +445,9 @@ RUN_PRE = [
     # group names are pairwise distinct (check_submission_groups, C17)
     "forall(a, range(len(GROUPS())), forall(b, range(a), GROUPS()[a].name != GROUPS()[b].name))",
 ]
+# whatever the outcome, the CLI callback still holds a promoted handle and no lock, so its `finally` can give the role back (C10)
+RUN_HANDLE_OK = ("not ghost.cluster_lock and self._cluster.g_promoted and self._cluster._config.submitter == self._cluster._hostname "
+                 "and paths_distinct(self._cluster)")
 contract("HpcSubmitter.run", file=F,
          params=[("self", "Ref[HpcSubmitter]")], returns="bool",
          locals={"blocked_jobs": "List[Ref[Job]]", "submitted_jobs": "List[Ref[Job]]", "hpc_submitters": "List[Ref[AsyncHpcSubmitter]]"},
@@ -478,9 +483,11 @@ contract("HpcSubmitter.run", file=F,
                                             "self._batch_index == old(self._batch_index)",
                                             # ... and no result was consumed: the next round sees the same completions (C11)
                                             "ghost.collected == old(ghost.collected) and ghost.collected_failed == old(ghost.collected_failed)",
-                                            "unchanged(Job.state) and unchanged(Job.blocked_by)"], "frame": False},
+                                            "unchanged(Job.state) and unchanged(Job.blocked_by)", RUN_HANDLE_OK], "frame": False},
              # C11: once a round handed a batch over, every exception leaves the marker in place (later rounds refuse)
-             "Exception": {"ensures": ["ghost.runs == old(ghost.runs) or MARKER(self) in ghost.fs or persisted()"], "frame": False},
+             "Exception": {"ensures": ["ghost.runs == old(ghost.runs) or MARKER(self) in ghost.fs or persisted()", RUN_HANDLE_OK], "frame": False},
+             "Timeout": {"ensures": [RUN_HANDLE_OK], "frame": False}, "ConfigVersionMismatch": {"ensures": [RUN_HANDLE_OK], "frame": False},
+             "JobStatusVersionMismatch": {"ensures": [RUN_HANDLE_OK], "frame": False},
          },
          crash_inv=[
              # C11 (kill points): a batch handed to the scheduler and not yet persisted implies the marker file exists
